@@ -83,6 +83,8 @@ class C04(Check):
         for per, bnd, aff in itertools.product([False, True], ["logit", "probit", None], [False, True]):
             if not per and bnd is None and not aff:
                 continue
+            if bnd == "logit" and not per and not aff:
+                out.append({"name": "composite-noper-logit-noaff-revdict", "kind": "composite", "periodic": False, "bounded": "logit", "affine": False, "d": d, "batch": 2, "reversed_dict": True})
             out.append(
                 {
                     "name": f"composite-{'per' if per else 'noper'}-{bnd or 'off'}-{'aff' if aff else 'noaff'}",
@@ -332,6 +334,10 @@ class C04(Check):
 
         def make(xp, lo, hi):
             pb = {p: [lo[k], hi[k]] for k, p in enumerate(params)}
+            if cfg.get("reversed_dict"):
+                # the same bounds given in another key order (as a dictionary
+                # reloaded from HDF5, which sorts keys, would be)
+                pb = {p: pb[p] for p in reversed(params)}
             return T.CompositeTransform(
                 parameters=params,
                 periodic_parameters=periodic,
@@ -477,7 +483,8 @@ def _fd_logdet(fwd, x, h=1e-6, side=0):
         if side <= 0:
             xm[0, m] -= step
         J[:, m] = (fwd(xp_)[0][0] - fwd(xm)[0][0]) / ((2 if side == 0 else 1) * step)
-    return math.log(abs(np.linalg.det(J)))
+    dd = abs(np.linalg.det(J))
+    return math.log(dd) if dd > 0 and math.isfinite(dd) else -math.inf
 
 
 def replay_c04(cex):
@@ -539,10 +546,13 @@ def replay_c04(cex):
             _check_map(tr, x, bad, close)
         elif kind == "composite":
             params = [f"p{k}" for k in range(d)]
+            pbr = {p: [lo[k], hi[k]] for k, p in enumerate(params)}
+            if cfg.get("reversed_dict"):
+                pbr = {p: pbr[p] for p in reversed(params)}
             tr = T.CompositeTransform(
                 parameters=params,
                 periodic_parameters=["p0"] if cfg["periodic"] else [],
-                prior_bounds={p: [lo[k], hi[k]] for k, p in enumerate(params)},
+                prior_bounds=pbr,
                 bounded_to_unbounded=cfg["bounded"] is not None,
                 bounded_transform=cfg["bounded"] or "logit",
                 affine_transform=cfg["affine"],
